@@ -248,13 +248,29 @@ func c18carry(c *core.Ctx) {
 		return true
 	})
 	c.Check(okLen, R, "Len:value", c.P.Pos(l.Decl.Pos()), "Len is len(pattern) + 2", "Len() is no longer the delimited length of the pattern")
+	// the stripping may sit where the value is rendered (jsonValue) or where it is stored (newPattern):
+	// counted over both and the helpers of the package they call
 	calls := map[string]int{}
-	ast.Inspect(j.Decl.Body, func(n ast.Node) bool {
-		if call, ok := n.(*ast.CallExpr); ok {
-			calls[core.FullName(core.Callee(j.Pkg, call))]++
+	seenDecl := map[*ast.FuncDecl]bool{}
+	roots := []*core.DeclSite{j}
+	if np := c.P.FindDecl("openapi/internal/rsoac.newPattern"); np != nil {
+		roots = append(roots, np)
+	}
+	for _, root := range roots {
+		for _, hd := range helperBodies(c, root, 2) {
+			if seenDecl[hd.Decl] {
+				continue
+			}
+			seenDecl[hd.Decl] = true
+			hd := hd
+			ast.Inspect(hd.Decl.Body, func(n ast.Node) bool {
+				if call, ok := n.(*ast.CallExpr); ok {
+					calls[core.FullName(core.Callee(hd.Pkg, call))]++
+				}
+				return true
+			})
 		}
-		return true
-	})
+	}
 	okStrip := calls["strings.TrimSuffix"] == 1 && calls["strings.TrimPrefix"] == 1 && calls["strings.Trim"]+calls["strings.TrimLeft"]+calls["strings.TrimRight"] == 0 && calls["openapi/internal.ToJSONString"] == 1
 	c.Check(okStrip, R, "rsoac.Pattern.jsonValue", c.P.Pos(j.Decl.Pos()), "OpenAPI pattern = ToJSONString(TrimPrefix(TrimSuffix(value, \"/\"), \"/\"))", core.F("delimiters are not stripped exactly once / result not JSON-encoded (calls: %v)", calls))
 }
